@@ -125,6 +125,12 @@ func ReadEnvironment(data json.RawMessage) (Environment, error) {
 	env := NewBuilder().Build().(*environment)
 	envelope := env.toEnvelope()
 
+	// don't let unmarshaling write through to the shared default number format
+	if envelope.NumberFormat != nil {
+		nf := *envelope.NumberFormat
+		envelope.NumberFormat = &nf
+	}
+
 	if err := utils.UnmarshalAndValidate(data, envelope); err != nil {
 		return nil, err
 	}
